@@ -395,3 +395,139 @@ def _forward_reach(body):
         cache[x] = seen
         return seen
     return reach
+
+
+class VCall:
+    """A call seen through a forwarding helper: looks like the inner call (callee), sits at the outer call site (bb, span,
+    target) and carries the outer operands for the parameters the helper passes straight through (None elsewhere)."""
+
+    def __init__(self, outer, callee, args, via):
+        self.bb, self.span, self.target, self.dest = outer.bb, outer.span, outer.target, outer.dest
+        self.callee, self.args, self.via, self.is_local, self.gargs = callee, args, via, True, []
+        self.outer = outer
+
+
+def forwarders_of(F, suffix, crate="abasic_core"):
+    """{helper path: [index of the helper's parameter handed to each argument of the inner call, or None]} for local
+    functions that call `suffix` exactly once, on every path (the call post-dominates the entry), e.g.
+    `fn store_numbered_line(&mut self, n, tokens) { ..; self.program.set_numbered_line(n, tokens); .. }`."""
+    out = {}
+    for b in F.bodies.values():
+        if b.crate != crate or b.kind == "Closure":
+            continue
+        cs = [c for c in b.calls() if sfx(c.callee, suffix)]
+        if len(cs) != 1:
+            continue
+        c = cs[0]
+        pd = b.postdominators().get(0, set()) | {0}
+        if c.bb not in pd:
+            continue
+        m = []
+        for a in c.args:
+            e = strip_expr(b.expr(a))
+            m.append(e[1] if e[0] == "param" else None)
+        if any(x is not None for x in m[1:]):
+            out[b.path] = m
+    return out
+
+
+def calls_through(F, body, suffix, depth=2):
+    """Calls of `suffix` in `body`, directly or through forwarding helpers (as VCalls with the outer operands)."""
+    out = [c for c in body.calls() if sfx(c.callee, suffix)]
+    if depth <= 0:
+        return out
+    fw = forwarders_of(F, suffix, body.crate)
+    for c in body.calls():
+        m = fw.get(c.callee)
+        if m is None or c.callee == body.path:
+            continue
+        args = [c.args[i] if (i is not None and i < len(c.args)) else None for i in m]
+        inner = [x for x in F.bodies[c.callee].calls() if sfx(x.callee, suffix)][0]
+        out.append(VCall(c, inner.callee, args, c.callee))
+    return out
+
+
+def allowed_via_callers(F, name, allowed_suffixes, depth=3):
+    """`name` is one of the allowed functions, or a helper all of whose callers (at least one) are: a private function
+    extracted from an allowed function acts on that function's behalf."""
+    if any(sfx(name, a) for a in allowed_suffixes):
+        return True
+    if depth <= 0:
+        return False
+    callers = {b.path for b in F.bodies.values() for c in b.calls() if c.callee == name and b.path != name}
+    return bool(callers) and all(allowed_via_callers(F, c, allowed_suffixes, depth - 1) for c in callers)
+
+
+def deep_calls(F, body, expand, depth=3, _seen=None):
+    """(owner body, call) for the calls of `body` and, recursively, of the local callees for which expand(path) holds
+    (private helpers that should be looked through)."""
+    if _seen is None:
+        _seen = {body.path}
+    out = []
+    for c in body.calls():
+        out.append((body, c))
+        if depth > 0 and c.callee in F.bodies and c.callee not in _seen and expand(c.callee):
+            _seen.add(c.callee)
+            out += deep_calls(F, F.bodies[c.callee], expand, depth - 1, _seen)
+    return out
+
+
+def call_names_deep(body, e, depth=4, _seen=None):
+    """Last path segments of all calls an expression depends on, also through locals with several definitions."""
+    if _seen is None:
+        _seen = set()
+    out = set()
+    if not isinstance(e, tuple):
+        return out
+    for x in expr_calls(e):
+        out.add(x[1].split("::")[-1])
+
+    def locals_in(t, acc):
+        if isinstance(t, tuple):
+            if t and t[0] == "local":
+                acc.add(t[1])
+            for y in t[1:]:
+                if isinstance(y, (tuple, list)):
+                    locals_in(y, acc)
+        elif isinstance(t, list):
+            for y in t:
+                locals_in(y, acc)
+        return acc
+    if depth > 0:
+        for l in locals_in(e, set()):
+            if l in _seen:
+                continue
+            _seen.add(l)
+            for d in body.defs().get(l, []):
+                if d[0] in ("assign", "partial"):
+                    out |= call_names_deep(body, body.rv_expr(d[3]), depth - 1, _seen)
+                elif d[0] in ("call", "partial-call"):
+                    c = d[2]
+                    out.add(c.callee.split("::")[-1])
+                    for a in c.args:
+                        out |= call_names_deep(body, body.expr(a), depth - 1, _seen)
+    return out
+
+
+def float_consts_deep(body, e, depth=4, _seen=None):
+    """Float literals an expression can evaluate to, following locals with several (constant) definitions:
+    `let t = if c { 1.0 } else { 0.0 }; t.into()`."""
+    if _seen is None:
+        _seen = set()
+    out = set()
+    e = strip_expr(e)
+    if e[0] == "const":
+        if e[1].get("float") is not None:
+            out.add(e[1]["float"])
+        return out
+    loc = None
+    if e[0] == "local":
+        loc = e[1]
+    elif e[0] == "place" and e[1][0] == "local" and not e[2]:
+        loc = e[1][1]
+    if loc is not None and depth > 0 and loc not in _seen:
+        _seen.add(loc)
+        for d in body.defs().get(loc, []):
+            if d[0] in ("assign", "partial"):
+                out |= float_consts_deep(body, body.rv_expr(d[3]), depth - 1, _seen)
+    return out
